@@ -244,13 +244,17 @@ func outerPool(thorough bool) []int {
 	want := map[string]bool{"0": true, "-1": true, "real 1.5": true, "real 100000": true, `name "abc"`: true, `name "1e"`: true, `name "+"`: true,
 		`name "16#G"`: true, `literal name ""`: true, `literal name "abc"`: true, `string "abc"`: true, `string ""`: true, "procedure {/a 1}": true, `name "["`: true, `name ">>"`: true, `name "<<"`: true}
 	more := map[string]bool{`name "."`: true, `name "1E5x"`: true, `name "Inf"`: true, `name "37#0"`: true, `name "\x80\xff"`: true, `name "]"`: true,
-		`literal name "1"`: true, `literal name "16#FF"`: true, `literal name "a.b-c"`: true}
+		`literal name "1"`: true, `literal name "16#FF"`: true, `literal name "a.b-c"`: true,
+		"2147483647": true, "-2147483648": true, "9223372036854775807": true, "-9223372036854775808": true,
+		"9223372036854775808 (integer literal too large: real)": true, "-9223372036854775809 (integer literal too large: real)": true,
+		"real 0": true, "real -0.5": true, "real 1e-05": true, "real 1e+308": true,
+		`string "a(b)c\n"`: true, `string ")("`: true, `string "\\"`: true, `string "\n\n"`: true, `string "p"`: true, `string "\x00\xff"`: true}
 	var out []int
 	for i, e := range pool {
 		switch {
 		case want[e.obj.Label]:
 			out = append(out, i)
-		case thorough && (more[e.obj.Label] || e.obj.Kind == pstoken.Int || e.obj.Kind == pstoken.Real || e.obj.Kind == pstoken.String || e.obj.Kind == pstoken.Proc):
+		case thorough && (more[e.obj.Label] || e.obj.Kind == pstoken.Proc):
 			out = append(out, i)
 		}
 	}
@@ -273,9 +277,9 @@ var seps = []sep{
 
 const sepNothing = 12
 
-// quick-tier subsets
+// subsets for the triples (quick: sepsFew, thorough: sepsSome)
 var sepsFew = []int{0, 4, 8, sepNothing}
-var sepsSome = []int{0, 2, 4, 6, 7, sepNothing}
+var sepsSome = []int{0, 1, 2, 3, 4, 6, 7, 8, sepNothing}
 
 func legalSeps(a, b pstoken.Spelling, subset []int) []int {
 	var out []int
